@@ -27,7 +27,7 @@ checks = {
    "message wording matched by marker only, payloads exactly; interpreter states come from the real interpreter (C01's defects do not surface here); input-free programs; encoding-error programs only checked for 'status 1 + diagnostic, no crash'",
    TECH + ": history-driven simulation of the interactive debugger against a debugger model over the real interpreter's path"),
  "C12": ("exploration",
-   "The real app::interpreter::run is driven in SimWorld by seeded compositions of an input-free program into entered lines with clear/help/blank lines between, EOF anywhere, chunked reads, EINTR, short writes, SIGINT at prompts. Per line and in total the transcript must show exactly what the same commands produce when run as one program through the real execute::execute in a fresh state.",
+   "The real app::interpreter::run is driven in SimWorld by seeded compositions of an input-free program into entered lines (a quarter of them with comment text around the commands) with clear/help/blank lines between, EOF anywhere, chunked reads, EINTR, short writes, SIGINT at prompts. Per line and in total the transcript must show exactly what the same commands produce when the whole entered text is parsed at once and run as one program through the real execute::execute in a fresh state.",
    "oracle is the real whole-program run; lines that would not terminate within the step budget or leave the value cap are cut by the reference pre-flight; wording matched by marker only",
    TECH + ": history-driven simulation of the interactive interpreter against the whole-program run"),
  "C13": ("fault_enumeration",
@@ -65,7 +65,7 @@ m = {
     "level_claimed": {"category": v[0], "text": v[1], "design_ref": "DESIGN.md section " + refs[k]},
     "level_note": v[2], "technique": v[3]} for k, v in sorted(checks.items())],
  "not_applicable": [{"property_id": k, "reason": v} for k, v in sorted(na.items())],
- "notes": "see DESIGN.md (section 9 is the build log). Self-tests: ./check selftest-determinism (per-run event-log hashes identical across worker counts and processes), ./check selftest-mutants (45 hand-written property-breaking patches, each must turn its check red), tools/selftest_seeded.sh (71 independently seeded changes in /verif/seeded, five sub-agent rounds), tools/selftest_benign.sh (31 property-preserving patches in /verif/benign, 20 of them from sub-agents, must stay green), ./check selftest-refnum (reference arithmetic against Python). KNOWN_FINDINGS.txt lists nine fixed defects (no open finding).",
+ "notes": "see DESIGN.md (section 9 is the build log). Self-tests: ./check selftest-determinism (per-run event-log hashes identical across worker counts and processes), ./check selftest-mutants (45 hand-written property-breaking patches, each must turn its check red), tools/selftest_seeded.sh (79 independently seeded changes in /verif/seeded, six sub-agent rounds), tools/selftest_benign.sh (31 property-preserving patches in /verif/benign, 20 of them from sub-agents, must stay green), ./check selftest-refnum (reference arithmetic against Python). KNOWN_FINDINGS.txt lists nine fixed defects (no open finding).",
 }
 json.dump(m, open(os.path.join(H, 'MANIFEST.json'), 'w'), indent=1, ensure_ascii=False)
 print("MANIFEST.json written:", len(m["checks"]), "checks,", len(m["not_applicable"]), "not applicable")
